@@ -477,13 +477,14 @@ static void run_case(Run &r, const Case &c, bool fail_first = false)
 //   err:<fmt>:<flags>                                   all strings of length <= 3, the source ends with a read error (-1) instead of end of file (-2)
 //   long:<fmt>:<flags>                                  long-token shapes
 //   mut:<fmt>:<flags>                                   seed document with <= 2 token mutations
-//   pad:<fmt>:<flags>                                   a run of n = 1..N name characters (as first name, or as value behind "b=") followed by every string
+//   pad:<fmt>:<flags>                                   a run of n name characters (thorough: every n in 1..330) (as first name, or as value behind "b=") followed by every string
 //                                                       of length <= 2: sweeps the fill level of the growing path buffer across its allocation steps
 static int maxlen(Tier t, int fi, int ni)
 {
 	if (t == Quick) return 4;
-	if (ni == 0 && (fi == 0 || fi == 3)) return 6;
-	return ni < 3 ? 5 : 4;
+	if (ni == 0) return 5;                                      // all 11 formats, unrestricted names
+	if (ni == 1 && (fi == 0 || fi == 1 || fi == 3)) return 5;   // strict names: default, online (option end), config (separated)
+	return 4;
 }
 void mc_jobs(Tier t, std::vector<std::string> &jobs)
 {
@@ -497,11 +498,11 @@ void mc_jobs(Tier t, std::vector<std::string> &jobs)
 	}
 	for (int fi = 0; fi < nfmt(t); ++fi) for (int ni = 0; ni < (t == Quick ? 2 : NFLG); ++ni) jobs.push_back(fmt("long:%d:%d", fi, ni));
 	for (int fi = 0; fi < NFMT; ++fi) for (int ni = 0; ni < nflg(t); ++ni) jobs.push_back(fmt("mut:%d:%d", fi, ni));
-	for (int fi = 0; fi < NFMT; ++fi) for (int ni = 0; ni < (t == Quick ? 1 : 3); ++ni) jobs.push_back(fmt("pad:%d:%d", fi, ni));
+	for (int fi = 0; fi < NFMT; ++fi) jobs.push_back(fmt("pad:%d:0", fi));
 }
 
 // ---- long tokens
-static const size_t LONGLEN[] = { 255, 256, 65535, 65536, 254, 257, 65534, 65537 };
+static const size_t LONGLEN[] = { 255, 256, 65535, 65536, 254, 257, 65534, 65537 };   // quick: first four; thorough, flag sets >= 2: first six
 enum { P_SECT, P_OPT, P_VAL, P_QVAL, P_COMMENT, P_ANON, NPOS };
 static const char *POSN[] = { "section name", "option name", "value", "quoted value", "comment", "anonymous value" };
 static uint64_t g_long[NPOS][2];
@@ -510,7 +511,7 @@ static void body_long(Run &r, Ctx &x, int fi, int ni)
 {
 	mpt::parser_format f; mpt::mpt_parse_format(&f, FMT[fi].str);
 	int pos = (int) x.choose(NPOS);
-	size_t len = LONGLEN[x.choose(r.tier == Quick ? 4 : 8)];
+	size_t len = LONGLEN[x.choose(r.tier == Quick ? 4 : (ni < 2 ? 8 : 6))];
 	int fill = (int) x.choose(r.tier == Quick ? 2 : 3);   // 'a' run / alternating "a " (inner blanks) / 0xE9 run
 	int tail = (int) x.choose(3);          // complete document / end of input right behind the token / token then end of line only
 	std::string fam = FMT[fi].family;
@@ -620,7 +621,7 @@ static void body_mut(Run &r, Ctx &x, int fi, int ni, const std::vector<uint8_t> 
 	int muts = 0;
 	if (m1) {
 		mutate(T, m1 - 1, tok); ++muts;
-		if (!T.empty() && (r.tier == Thorough || m1 <= 3 * n0)) { size_t m2 = x.choose(1 + nmut(T.size(), tok.size(), r.tier == Thorough && ni < 3)); if (m2) { mutate(T, m2 - 1, tok); ++muts; } }
+		if (!T.empty() && (r.tier == Thorough || m1 <= 3 * n0)) { size_t m2 = x.choose(1 + nmut(T.size(), tok.size(), r.tier == Thorough && ni == 0)); if (m2) { mutate(T, m2 - 1, tok); ++muts; } }
 	}
 	int eofcode = m1 ? -2 : (x.choose(2) ? -1 : -2);
 	std::string doc; for (auto &s : T) doc += s;
@@ -641,9 +642,9 @@ static uint64_t g_pad;
 static void body_pad(Run &r, Ctx &x, int fi, int ni, const std::vector<uint8_t> &tok)
 {
 	mpt::parser_format f; mpt::mpt_parse_format(&f, FMT[fi].str);
-	// quick: only the fill levels around the first two allocation steps of the path buffer (64 and 192 bytes), thorough: every n up to 400
+	// quick: only the fill levels around the first two allocation steps of the path buffer (64 and 192 bytes), thorough: every n up to 330 (third step at 320)
 	int variant = (int) x.choose(2);
-	size_t n = 1 + x.choose(r.tier == Quick ? 34 : 400);
+	size_t n = 1 + x.choose(r.tier == Quick ? 34 : 330);
 	if (r.tier == Quick) n = n <= 17 ? 55 + n : 183 + (n - 17);
 	std::string doc;
 	if (variant) { if (f.ostart) doc += (char) f.ostart; doc += "b"; doc += f.assign ? (char) f.assign : ' '; }
